@@ -646,6 +646,23 @@ def run(chk, facts, tier, only=None):
                                f"argument names: `(owner : principal, owner : nat)` is accepted there although argument names of one list must be unique",
                                where=f"rust/candid_parser/src/grammar.lalrpop ({u})", ok_detail=f"{ntname} sorts the names and runs check_unique")
         chk.floor("uses of argument-list nonterminals in function / constructor / init-args productions", n_used, 3)
+        # a method of a service type is written as a function type or as a name (resolved and tested later): the nonterminal that the
+        # service body is made of builds nothing else, which is what the checker (and the printers' `unreachable!` arms for other method
+        # types, reached when an error message prints the type) rely on during the declaration pass
+        meth_nts = [n for n, b in bodies.items() if re.search(r"\bSepBy<\s*(\w+)\s*,", b) and "Vec<Binding>" in re.sub(r"\s", "", nts[n][0])]
+        elem = sorted({m.group(1) for n in meth_nts for m in re.finditer(r"\bSepBy<\s*(\w+)\s*,", bodies[n]) if m.group(1) in bodies and re.sub(r"\s", "", nts[m.group(1)][0]) == "Binding"})
+        if not elem:
+            raise AnchorMissing("grammar.lalrpop: the nonterminal for one method of a service body (type Binding, used through SepBy in a Vec<Binding> production) not found")
+        for e_ in elem:
+            typs = re.findall(r"Binding\s*\{[^}]*?\btyp\s*:\s*([^,}]+)", bodies[e_])
+            if not typs:
+                raise AnchorMissing(f"grammar.lalrpop: `{e_}` builds no Binding {{ .. typ: .. }}")
+            odd = [t_.strip() for t_ in typs if not re.match(r"IDLType::(FuncT|VarT)\s*\(", t_.strip())]
+            chk.expect(not odd, f"method-type:function-or-name:{e_}",
+                       f"grammar.lalrpop: `{e_}` gives a method the type `{odd[0] if odd else ''}`, i.e. whatever that nonterminal parses: a service body such as "
+                       f"`service {{ f : nat }}` then reaches the checker's declaration pass with a primitive in method position, and printing it in the error "
+                       f"message hits the printers' `unreachable!()` for method types that are neither a function nor a name",
+                       where=f"rust/candid_parser/src/grammar.lalrpop ({e_})", ok_detail="IDLType::FuncT(..) / IDLType::VarT(..) only")
 
     for rid, desc, fn in (("C14.R5", "argument names are checked unique in every production that accepts a named argument list", r5),
                           ("C14.R1", "each well-formedness rule has an enforcing check on every accepting path", r1),
